@@ -215,12 +215,13 @@ def single_quantization(ck, rule, results, only=None):
         f = ck.prog.funcs[q]
         if only is not None and f.parent.name not in only:
             continue
-        badev = [e for e in events if e[0] in ("intcast", "round", "adjust", "recast")]
+        badev = [e for e in events if e[0] in ("intcast", "round", "adjust", "recast")] + ([e for e in events if e[0] == "clamp"] if f.parent.name not in ("clip", "fxp_max", "fxp_min") else [])
         # cumprod's int_array over the list of conversion factors is a Pow2 list, not a code: events only record casts of codes
         ck.check(not badev, rule, f, "the kernel result reaches the sink without an intermediate rounding or integer cast",
                  "%s applied inside the kernel: %s" % (badev[0][0], src(badev[0][1])[:90]) if badev else "", pf.ret_stmt,
                  {"intcast": "a truncation before the sink's own rounding makes floor/ceil/around results wrong (double quantization)",
                   "round": "a second rounding besides the sink's", "adjust": "a number of LSBs is added to the code inside the kernel (a hand-made rounding): the exact quotient/result is altered before the sink quantizes it",
+                  "clamp": "an operand or the result is clamped/selected inside the kernel: the exact result is replaced before the sink can flag and quantize it",
                   "recast": "re-casting operand codes to another machine integer type reinterprets negative codes (int64 -> uint64 wraps) or narrows them"}.get(badev[0][0]) if badev else None)
 
 
@@ -753,3 +754,24 @@ def arg_forwarding(ck, rule):
             break
     if n < 10:
         raise AnalysisError("only %d forwarded numpy arguments found" % n)
+
+
+def repr_operator_table(ck, rule):
+    """C09.R2 (repr siblings): the value-route functions of the division family apply the operator of their name to their operands."""
+    prog = ck.prog
+    table = {"truediv": ("_truediv_repr", ast.Div), "floordiv": ("_floordiv_repr", ast.FloorDiv), "mod": ("_mod_repr", ast.Mod)}
+    for fn, (name, opc) in table.items():
+        outer = prog.func("functions." + fn)
+        k = outer.nested.get(name)
+        if k is None:
+            # whatever is bound to repr_func at the wrapper call
+            ck.note("%s has no nested %s; repr route uses %s" % (fn, name, "a numpy function"))
+            continue
+        ps = k.params
+        for pf in fpaths(prog, k):
+            if pf.end != "return" or pf.ret is None:
+                continue
+            e = peel(pf.ret)[0]
+            good = isinstance(e, ast.BinOp) and isinstance(e.op, opc) and dotted(e.left) == ps[0] and dotted(e.right) == ps[1]
+            ck.check(good, rule, k, "%s computes x %s y on the values (the operator the raw kernel mirrors)" % (name, {ast.Div: "/", ast.FloorDiv: "//", ast.Mod: "%"}[opc]),
+                     "%s returns %s" % (name, src(pf.ret)[:60]), pf.ret_stmt, "raw and repr methods disagree (e.g. truncation toward zero instead of floor for negative quotients)")
